@@ -15,6 +15,7 @@
 #include <time.h>
 #include <unistd.h>
 #include <fcntl.h>
+#include <errno.h>
 #include <stdint.h>
 #include <sys/syscall.h>
 #include "clockbound.h"
@@ -130,6 +131,8 @@ int main(void) {
         /* one error struct for the whole run, as a caller retrying in a loop would use it: a failed
            open must overwrite every field of it */
         static clockbound_err err;
+        /* a stale errno from an earlier, unrelated call must not show in the outcome */
+        { static const int stale[6] = { EINTR, EAGAIN, EINTR, ENOENT, EINTR, 0 }; static unsigned ncase = 0; errno = stale[ncase++ % 6]; }
         clockbound_ctx *ctx = clockbound_open(path, &err);
         if (!ctx) { printf("K:"); print_err(&err); printf(" N:-\n"); fflush(stdout); continue; }
         printf("K:ok N:");
